@@ -292,6 +292,9 @@ def desugar(x):
         rest = ["cond"] + x[2:] if len(x) > 2 else ["if", False, False]
         if len(cl) == 1:
             return desugar(["or", cl[0], rest])
+        if len(cl) == 3 and cl[1] == "=>":                  # (test => receiver): test once, receiver only when true
+            t = fresh("ct")
+            return desugar(["let", [[t, cl[0]]], ["if", t, [cl[2], t], rest]])
         return ["if", desugar(cl[0]), desugar(["begin"] + cl[1:]), desugar(rest)]
     if h == "case":
         k = fresh("key")
@@ -493,7 +496,13 @@ def strip_for_a0(w):
 def program_to_model(forms, names):
     """surface program -> list of wire ASTs (one per top-level form), by this file's own desugaring + analysis"""
     ug, out = set(), []
-    for f in forms:
+    flat = []
+    for f in forms:                                        # R7RS 5.1: a top-level begin is spliced
+        if isinstance(f, list) and f and f[0] == "begin" and len(f) > 1:
+            flat += f[1:]
+        else:
+            flat.append(f)
+    for f in flat:
         t = analyze_toplevel(desugar(f), ug)
         number_lambdas(t, [0])
         out.append(tree_wire(t, names))
@@ -758,6 +767,381 @@ def capture_case(kind, use, depth, esc):
     return None
 
 
+# ------------------------------------------------------------------ round 2 families
+
+NIL = ["quote", []]
+
+
+def Q(d):
+    return ["quote", d]
+
+
+def lst(*xs):
+    out = NIL
+    for x in reversed(xs):
+        out = ["cons", x, out]
+    return out
+
+
+# every syntactic position class in which a variable can occur; `o` is the variable under test (a list),
+# `a` an assignable integer variable of the same procedure.  usedp (simplify.c), sexp_free_vars (eval.c) and
+# the analyser each walk these positions with their own code.
+POSITIONS = {
+    "test-if": [["if", ["pair?", "o"], Q("y"), Q("n")]],
+    "test-if-null": [["if", ["null?", "o"], 1, 2]],
+    "test-if-bare": [["if", "o", 1, 2]],
+    "test-if-nested": [["if", ["if", ["pair?", "o"], False, True], 1, 2]],
+    "test-cond": [["cond", [["null?", "o"], 0], [["pair?", "o"], ["car", "o"]], ["else", 7]]],
+    "test-cond-arrow": [["cond", [["pair?", "o"], "=>", ["lambda", ["t"], ["cons", "t", 1]]], ["else", 7]]],
+    "test-and": [["and", ["pair?", "o"], ["car", "o"]]],
+    "test-or": [["or", ["null?", "o"], ["car", "o"]]],
+    "test-when": [["when", ["pair?", "o"], ["set!", "a", 50]], "a"],
+    "test-unless": [["unless", ["null?", "o"], ["set!", "a", 50]], "a"],
+    "test-case": [["case", ["if", ["pair?", "o"], 1, 0], [[1], Q("one")], ["else", Q("none")]]],
+    "test-do": [["do", [["i", 0, ["+", "i", 1]]], [["if", ["pair?", "o"], True, [">", "i", 1]], "i"]]],
+    "test-in-operand": [["cons", ["if", ["pair?", "o"], 1, 2], NIL]],
+    "operand": [["cons", 1, "o"]],
+    "operand-call": [[["lambda", ["z"], "z"], "o"]],
+    "operand-2nd": [[["lambda", ["y", "z"], ["cons", "z", "y"]], "a", "o"]],
+    "operator-chosen": [[["if", ["pair?", "o"], ["lambda", ["z"], ["cons", "z", 1]], ["lambda", ["z"], "z"]], "a"]],
+    "operator-car": [[["if", ["pair?", "o"], ["car", "o"], ["lambda", ["z"], "z"]], "a"]],
+    "operator-self": [["o", 1]],
+    "set-target": [["set!", "o", 5], "a"],
+    "set-target-then-read": [["set!", "o", ["cons", "a", NIL]], "o"],
+    "set-value": [["set!", "a", "o"], "a"],
+    "closure": [[["lambda", [], "o"]]],
+    "closure-esc": [[["lambda", ["k"], ["k"]], ["lambda", [], "o"]]],
+    "closure-2": [[["lambda", [], [["lambda", [], "o"]]]]],
+    "closure-3": [[["lambda", ["p"], [["lambda", ["q"], [["lambda", [], ["cons", "p", ["cons", "q", "o"]]]]], 2]], 1]],
+    "closure-test": [[["lambda", [], ["if", ["pair?", "o"], 1, 2]]]],
+    "closure-set": [[["lambda", [], ["set!", "o", 3]]], "o"],
+    "closure-else": [[["lambda", ["z"], ["if", ["=", "z", 0], 1, "o"]], "a"]],
+    "then-only": [["if", ["=", "a", 1], "o", 1]],
+    "else-only": [["if", ["=", "a", 0], 1, "o"]],
+    "else-test": [["if", ["=", "a", 0], 1, ["if", ["pair?", "o"], 2, 3]]],
+    "seq-nonfinal-pure": [["begin", ["pair?", "o"], "a"]],
+    "seq-nonfinal-effect": [[["lambda", ["z"], ["set!", "a", "z"]], "o"], "a"],
+    "seq-nonfinal-test": [["if", ["pair?", "o"], ["set!", "a", 9]], "a"],
+    "define-init": [["define", "k", "o"], "k"],
+    "define-lambda": [["define", ["k"], "o"], ["k"]],
+    "define-lambda-test": [["define", ["k"], ["if", ["null?", "o"], 0, 1]], ["k"]],
+    "named-let-init": [["let", "lp", [["l", "o"], ["n", 0]], ["if", ["pair?", "l"], ["lp", ["cdr", "l"], ["+", "n", 1]], "n"]]],
+    "let-init": [["let", [["z", "o"]], "z"]],
+    "letrec-init": [["letrec", [["z", ["lambda", [], "o"]]], ["z"]]],
+    "unused": ["a"],
+    "shadowed": [[["lambda", ["o"], "o"], "a"]],
+    "shadowed-rest": [[["lambda", "o", "o"], "a"]],
+}
+PROC_ARG = ["lambda", ["z"], ["cons", "z", "z"]]
+
+
+def rest_case(pos, ctxt, surplus):
+    """rest parameter `o` used only at position class `pos`; called with `surplus` extra arguments; the call sits
+    between two other values so that a frame one slot off shows"""
+    body = POSITIONS[pos]
+    extra = [21, 22, 23][:surplus]
+    if pos == "operator-car" and surplus:
+        extra[0] = PROC_ARG
+    wrap = lambda call: [lst(call, 99)]
+    if ctxt == "define":
+        return [["define", ["f", "a", ".", "o"]] + body] + wrap(["f", 1] + extra)
+    if ctxt == "define2":
+        return [["define", ["f", "b", "a", ".", "o"]] + body] + wrap(["f", 0, 1] + extra)
+    if ctxt == "lambda":
+        return wrap([["lambda", ["a", ".", "o"]] + body, 1] + extra)
+    if ctxt == "fixed0":
+        return [["define", "a", 1], ["define", ["f", ".", "o"]] + body] + wrap(["f"] + extra)
+    if ctxt == "nested":
+        return [["define", ["outer", "q"], ["define", ["f", "a", ".", "o"]] + body, lst(["f", "q"] + extra, "q")]] + wrap(["outer", 1])
+    if ctxt == "twice":            # same procedure called with and without surplus arguments
+        return [["define", ["f", "a", ".", "o"]] + body] + [lst(["f", 1] + extra, ["f", 1], 99)]
+    raise ValueError(ctxt)
+
+
+REST_CTXTS = ["define", "define2", "lambda", "fixed0", "nested", "twice"]
+
+
+def rest_family(rng=None, per_pos=None):
+    out = []
+    for pos in POSITIONS:
+        combos = [(c, n) for c in REST_CTXTS for n in (0, 1, 3)]
+        if per_pos is not None:
+            must = [("define", 1), ("fixed0", 1)]                  # the shapes of the simplest witnesses, always
+            rest_ = [x for x in combos if x not in must]
+            combos = must + [rest_[i] for i in sorted(rng.sample(range(len(rest_)), max(0, per_pos - len(must))))]
+        for c, n in combos:
+            out.append(("restpos/%s/%s/n%d" % (pos, c, n), rest_case(pos, c, n)))
+    return out
+
+
+def capture_pos_case(pos, kind, depth):
+    """variable `o` (a parameter / internal define / let variable of an outer procedure) reached from `depth`
+    lambdas below at position class `pos`: what sexp_free_vars must find"""
+    body = POSITIONS[pos]
+    inner = [["lambda", ["a"]] + body, 1]
+    for d in range(depth - 1):
+        inner = [["lambda", ["y%d" % d], inner], d]
+    val = lst(21, 22) if pos != "operator-car" else lst(PROC_ARG, 22)
+    if kind == "param":
+        return [lst([["lambda", ["o", "c"], lst(inner, "c")], val, 5], 99)]
+    if kind == "local":
+        return [lst([["lambda", ["c"], ["define", "o", val], lst(inner, "c")], 5], 99)]
+    if kind == "let":
+        return [["let", [["c", 5], ["o", val]], lst(inner, "c")]]
+    raise ValueError(kind)
+
+
+def capture_pos_family(rng=None, keep=None):
+    out = []
+    for pos in POSITIONS:
+        for kind in ("param", "local", "let"):
+            for depth in (1, 2, 3):
+                out.append(("cappos/%s/%s/d%d" % (pos, kind, depth), capture_pos_case(pos, kind, depth)))
+    if keep is not None and keep < len(out):
+        out = [out[i] for i in sorted(rng.sample(range(len(out)), keep))]
+    return out
+
+
+FWD_INITS = {"const-int": 10, "const-sym": Q("k"), "const-nil": NIL, "const-false": False, "const-true": True,
+             "computed": ["+", "a", 1], "computed-cons": ["cons", "a", NIL], "lambda": ["lambda", [], 3],
+             "ref-earlier": "w"}
+
+
+def fwd_case(binder, init, assigned, depth, shape):
+    """an EARLIER closure g refers to a LATER binding k of the same body (internal define / letrec / letrec*);
+    k's initialiser is a constant, a computed value or a lambda; k is never assigned, assigned in the body or
+    assigned by a third closure; g is `depth` lambdas deep"""
+    iv = FWD_INITS[init]
+    use = "k"
+    for _ in range(depth - 1):
+        use = [["lambda", [], use]]
+    binds = [("w", 3), ("g", ["lambda", [], use]), ("k", iv)]
+    if assigned == "closure-set":
+        binds.append(("s", ["lambda", [], ["set!", "k", 77]]))
+    if shape == "late-reader":                       # a reader defined after k as well: both must see the same cell
+        binds.append(("h", ["lambda", [], "k"]))
+    stmts = []
+    if assigned == "body-set":
+        stmts.append(["set!", "k", 55])
+    if assigned == "closure-set":
+        stmts.append(["s"])
+    obs = [["g"], "k"] + ([["h"]] if shape == "late-reader" else [])
+    if init == "lambda" and assigned == "never":
+        obs = [[["g"]], ["k"]] + ([[["h"]]] if shape == "late-reader" else [])
+    res = lst(*obs)
+    if binder == "define":
+        body = [["define", n, v] for n, v in binds] + stmts + [res]
+    elif binder == "define-proc":                    # (define (g) ..) spelling
+        body = [["define", [n]] + v[2:] if isinstance(v, list) and v and v[0] == "lambda" else ["define", n, v] for n, v in binds] + stmts + [res]
+    else:
+        body = [[binder, [[n, v] for n, v in binds]] + stmts + [res]]
+    if shape == "toplevel-lambda":
+        return [lst([["lambda", ["a"]] + body, 1], 99)]
+    if shape == "nested":
+        return [["define", ["f", "b"], [["lambda", ["a"]] + body, "b"]], lst(["f", 1], 99)]
+    return [["define", ["f", "a"]] + body, lst(["f", 1], 99)]
+
+
+def fwd_family(rng=None, keep=None):
+    out = []
+    for binder in ("define", "define-proc", "letrec", "letrec*"):
+        for init in FWD_INITS:
+            if binder == "letrec" and init == "ref-earlier":      # R7RS letrec: an init must not use another variable's value
+                continue
+            for assigned in ("never", "body-set", "closure-set"):
+                for depth in (1, 2, 3):
+                    for shape in ("define", "toplevel-lambda", "nested", "late-reader"):
+                        out.append(("fwd/%s/%s/%s/d%d/%s" % (binder, init, assigned, depth, shape),
+                                    fwd_case(binder, init, assigned, depth, shape)))
+    if keep is not None and keep < len(out):
+        # the never-assigned constant initialisers at depth 1 are the boundary of the analyser's sv decision: always kept
+        must = [x for x in out if "/const-" in x[0] and "/never/d1/define" in x[0] and x[0].startswith("fwd/define/")]
+        others = [x for x in out if x not in must]
+        out = must + [others[i] for i in sorted(rng.sample(range(len(others)), max(0, keep - len(must))))]
+    return out
+
+
+TOPLEVEL_FIXED = [
+    # define / re-define / set! of globals against procedures compiled before or after (R7RS 5.3.1: a top-level
+    # define of a bound variable is an assignment: there is ONE location per global)
+    ("redefine-read-by-old-proc", [["define", "g", 1], ["define", ["rd"], "g"], ["define", "g", 2], lst(["rd"], "g")]),
+    ("redefine-set-by-old-proc", [["define", "g", 1], ["define", ["wr", "v"], ["set!", "g", "v"]], ["define", "g", 2], ["wr", 3], "g"]),
+    ("redefine-set-then-read", [["define", "g", 1], ["define", ["rd"], "g"], ["define", ["wr", "v"], ["set!", "g", "v"]],
+                                ["define", "g", 2], ["wr", 3], ["define", ["rd2"], "g"], lst(["rd"], ["rd2"], "g")]),
+    ("redefine-twice", [["define", "g", 1], ["define", ["rd"], "g"], ["define", "g", 2], ["define", "g", Q("c")], lst(["rd"], "g")]),
+    ("forward-ref", [["define", ["rd"], "g"], ["define", "g", 5], ["rd"]]),
+    ("forward-ref-then-redefine", [["define", ["rd"], "g"], ["define", "g", 5], ["define", "g", 6], lst(["rd"], "g")]),
+    ("forward-ref-set", [["define", ["wr", "v"], ["set!", "g", "v"]], ["define", "g", 5], ["wr", 6], "g"]),
+    ("forward-ref-unbound-error", [["define", ["rd"], "g"], ["rd"]]),
+    ("forward-ref-proc", [["define", ["k"], ["h"]], ["define", ["h"], 1], ["define", ["h"], 2], ["k"]]),
+    ("redefine-proc-as-value", [["define", ["h"], 1], ["define", ["k"], "h"], ["define", "h", 7], ["k"]]),
+    ("redefine-value-as-proc", [["define", "h", 7], ["define", ["k"], ["h"]], ["define", ["h"], 8], ["k"]]),
+    ("set-then-redefine", [["define", "g", 1], ["define", ["rd"], "g"], ["set!", "g", 2], ["define", "g", 3], ["set!", "g", ["+", "g", 1]], lst(["rd"], "g")]),
+    ("closure-factory", [["define", "g", 1], ["define", ["mk"], ["lambda", [], "g"]], ["define", "r1", ["mk"]], ["define", "g", 2],
+                         ["define", "r2", ["mk"]], lst(["r1"], ["r2"])]),
+    ("nested-set", [["define", "g", 1], ["define", ["mk"], ["lambda", ["v"], ["lambda", [], ["set!", "g", ["cons", "v", "g"]]]]],
+                    ["define", "w1", [["mk"], 5]], ["define", "g", NIL], ["w1"], ["w1"], "g"]),
+    ("begin-defines", [["begin", ["define", "g", 1], ["define", ["rd"], "g"]], ["begin", ["define", "g", 2], ["define", "u", ["rd"]]], lst("u", "g")]),
+    ("redefine-self-recursive", [["define", ["lp", "n"], ["if", ["=", "n", 0], Q("old"), ["lp", ["-", "n", 1]]]],
+                                 ["define", "keep", "lp"], ["define", ["lp", "n"], Q("new")], ["keep", 2]]),
+]
+# F-C03-2: the initialiser of a re-definition must still see the old value
+REDEFINE_READS_OLD = [
+    ("redefine-reads-old-F-C03-2", [["define", "g", 1], ["define", "g", ["+", "g", 1]], "g"]),
+    ("redefine-reads-old-via-proc-F-C03-2", [["define", "g", 1], ["define", ["rd"], "g"], ["define", "g", ["cons", ["rd"], NIL]], "g"]),
+]
+
+
+def toplevel_random(rng):
+    """random sequence of top-level forms over three globals: define / re-define / set! / reader and writer
+    procedures (also nested closures) defined before or after the variables they use; the last form reads
+    everything.  A variable is never read before its first definition and an initialiser of a re-definition
+    never reads the variable being redefined (see F-C03-2 for that)."""
+    gs = ["ga", "gb", "gc"]
+    defined, procs, forms, n = set(), [], [], [0]
+
+    def val(avoid=None):
+        c = [g for g in sorted(defined) if g != avoid]
+        k = rng.randrange(5)
+        if k == 0 and c:
+            return ["cons", rng.choice(c), NIL]
+        if k == 1:
+            return Q(rng.choice(["p", "q"]))
+        if k == 2 and c:
+            return rng.choice(c)
+        return rng.randrange(0, 50)
+
+    def fresh_name(p):
+        n[0] += 1
+        return "%s%d" % (p, n[0])
+
+    for _ in range(rng.randrange(4, 11)):
+        k = rng.randrange(9)
+        g = rng.choice(gs)
+        if k <= 2 or not defined:                          # define or re-define
+            forms.append(["define", g, val(avoid=g)])
+            defined.add(g)
+        elif k == 3 and g in defined:
+            forms.append(["set!", g, val(avoid=g)])
+        elif k == 4:                                       # reader, possibly of a variable defined later
+            f = fresh_name("rd")
+            forms.append(["define", [f], g])
+            procs.append((f, g, "rd"))
+        elif k == 5:                                       # writer
+            f = fresh_name("wr")
+            forms.append(["define", [f, "v"], ["set!", g, ["cons", "v", NIL]]])
+            procs.append((f, g, "wr"))
+        elif k == 6:                                       # nested closure reader made now, used later
+            f = fresh_name("mk")
+            forms.append(["define", f, [["lambda", ["z"], ["lambda", [], ["cons", "z", g]]], rng.randrange(9)]])
+            procs.append((f, g, "rd"))
+        elif k == 7:
+            ws = [p for p in procs if p[2] == "wr" and p[1] in defined]
+            if ws:
+                forms.append([rng.choice(ws)[0], rng.randrange(0, 9)])
+        else:
+            rs = [p for p in procs if p[2] == "rd" and p[1] in defined]
+            if rs:                                          # a call result stored in another global
+                r_ = rng.choice(rs)
+                g2 = rng.choice([x for x in gs if x != r_[1]])
+                forms.append(["define", g2, [r_[0]]])
+                defined.add(g2)
+    for g in gs:                                           # whatever is still only forward-referenced gets defined now
+        if g not in defined:
+            forms.append(["define", g, rng.randrange(50, 60)])
+            defined.add(g)
+    forms.append(lst(*([[p[0]] for p in procs if p[2] == "rd"] + gs)))
+    return forms
+
+
+def toplevel_family(rng, nrand):
+    out = [("toplevel/" + k, f) for k, f in TOPLEVEL_FIXED]
+    for i in range(nrand):
+        out.append(("toplevel/random#%d" % i, toplevel_random(rng)))
+    return out
+
+
+def chain_case(depth, boxmask, rest_at):
+    """closure chain `depth` levels deep; level i binds v_i (as a rest parameter at level rest_at); the variables
+    selected by boxmask are assigned from the innermost lambda (so they are boxed), all are read there"""
+    vs = ["v%d" % i for i in range(depth)]
+    inner = []
+    for i, v in enumerate(vs):
+        if boxmask >> i & 1:
+            inner.append(["set!", v, ["cons", 100 + i, v]])
+    inner.append(lst(*vs))
+    e = [["lambda", []] + inner]
+    for i in reversed(range(depth)):
+        if i == rest_at:
+            e = [["lambda", vs[i], e], 10 + i, 20 + i]
+        else:
+            e = [["lambda", [vs[i]], e], 10 + i]
+    return [lst(e, 99)]
+
+
+def chain_family(rng=None, keep=None):
+    out = []
+    for depth in (4, 5, 6):
+        for boxmask in range(1 << depth):
+            for rest_at in (-1, 0, depth - 1):
+                out.append(("chain/d%d/m%d/r%d" % (depth, boxmask, rest_at), chain_case(depth, boxmask, rest_at)))
+    if keep is not None and keep < len(out):
+        out = [out[i] for i in sorted(rng.sample(range(len(out)), keep))]
+    return out
+
+
+# scoping / evaluation-rule cases for the derived forms (each written against R7RS 4.2, 7.3)
+MISC_CASES = [
+    ("named-let-shadows-own-name", [["define", ["lp"], 7], ["let", "lp", [["x", ["lp"]]], "x"]]),
+    ("named-let-tag-as-variable", [["let", "lp", [["lp2", 1]], ["if", ["=", "lp2", 1], ["lp", 2], "lp2"]]]),
+    ("named-let-param-named-like-tag", [["let", "lp", [["lp", 1]], "lp"]]),
+    ("named-let-init-outer-scope", [[["lambda", ["x"], ["let", "lp", [["x", ["+", "x", 1]], ["n", 0]], ["if", ["<", "n", 2], ["lp", ["+", "x", 1], ["+", "n", 1]], "x"]]], 10]]),
+    ("do-fresh-binding-per-iteration", [["define", "acc", NIL],
+                                        ["do", [["i", 0, ["+", "i", 1]]], [["=", "i", 3]], ["set!", "acc", ["cons", ["lambda", [], "i"], "acc"]]],
+                                        lst([["car", "acc"]], [["car", ["cdr", "acc"]]], [["car", ["cdr", ["cdr", "acc"]]]])]),
+    ("do-body-assigns-loop-var", [["define", "acc", NIL],
+                                  ["do", [["i", 0, ["+", "i", 1]]], [[">", "i", 5]],
+                                   ["set!", "acc", ["cons", ["lambda", [], "i"], "acc"]], ["set!", "i", ["+", "i", 1]]],
+                                  lst([["car", "acc"]], [["car", ["cdr", "acc"]]], [["car", ["cdr", ["cdr", "acc"]]]])]),
+    ("do-step-sees-old-values", [["do", [["i", 0, ["+", "i", 1]], ["j", 10, ["+", "i", "j"]]], [["=", "i", 4], lst("i", "j")]]]),
+    ("do-no-step", [["do", [["i", 0, ["+", "i", 1]], ["k", 5]], [["=", "i", 2], "k"]]]),
+    ("named-let-closures-per-iteration", [["let", "lp", [["i", 0], ["acc", NIL]],
+                                           ["if", ["<", "i", 3], ["lp", ["+", "i", 1], ["cons", ["lambda", [], "i"], "acc"]],
+                                            lst([["car", "acc"]], [["car", ["cdr", "acc"]]])]]]),
+    ("cond-arrow", [["cond", [["cons", 1, 2], "=>", ["lambda", ["p"], ["car", "p"]]], ["else", 0]]]),
+    ("cond-arrow-false-skips-receiver", [["define", "n", 0], ["define", ["rcv", "v"], ["set!", "n", ["+", "n", 1]], "v"],
+                                         [["lambda", ["r"], lst("r", "n")], ["cond", [False, "=>", "rcv"], [5, "=>", "rcv"], ["else", 9]]]]),
+    ("cond-arrow-test-once", [["define", "n", 0], ["define", ["t"], ["set!", "n", ["+", "n", 1]], "n"],
+                              [["lambda", ["r"], lst("r", "n")], ["cond", [["t"], "=>", ["lambda", ["v"], ["cons", "v", NIL]]], ["else", 0]]]]),
+    ("cond-no-body-returns-test", [["cond", [False], [7], ["else", 1]]]),
+    ("cond-order", [["define", "n", NIL], ["define", ["t", "v", "r"], ["set!", "n", ["cons", "v", "n"]], "r"],
+                    [["lambda", ["r"], lst("r", "n")], ["cond", [["t", 1, False], 10], [["t", 2, True], 20], [["t", 3, True], 30], ["else", 40]]]]),
+    ("case-key-once", [["define", "n", 0], ["define", ["k"], ["set!", "n", ["+", "n", 1]], 3],
+                       [["lambda", ["r"], lst("r", "n")], ["case", ["k"], [[1, 2], Q("low")], [[3, 4], Q("mid")], ["else", Q("high")]]]]),
+    ("case-symbols", [["case", Q("b"), [["a"], 1], [["b", "c"], 2], ["else", 3]]]),
+    ("case-else", [["case", 9, [[1], 1], ["else", 3]]]),
+    ("and-or-values", [lst(["and"], ["or"], ["and", 1, 2], ["or", False, 3], ["and", 1, False, 2], ["or", False, False])]),
+    ("or-evaluates-once", [["define", "n", 0], ["define", ["t"], ["set!", "n", ["+", "n", 1]], "n"], [["lambda", ["r"], lst("r", "n")], ["or", ["t"], 5]]]),
+    ("truthiness", [lst(["if", 0, 1, 2], ["if", NIL, 1, 2], ["if", Q("a"), 1, 2], ["if", ["lambda", [], 1], 1, 2], ["if", ["cons", 1, 2], 1, 2])]),
+    ("operand-set", [[["lambda", ["x"], lst(["begin", ["set!", "x", 5], "x"], 1)], 0]]),
+    ("operand-set-observed-after", [[["lambda", ["x"], [["lambda", ["r"], lst("r", "x")], ["cons", ["begin", ["set!", "x", ["cons", 1, "x"]], 7], 2]]], NIL]]),
+    ("set-in-test", [[["lambda", ["x"], ["if", ["begin", ["set!", "x", 3], False], 1, "x"]], 0]]),
+    ("let-init-outer-scope", [[["lambda", ["x"], ["let", [["x", ["+", "x", 1]], ["y", "x"]], lst("x", "y")]], 1]]),
+    ("let*-sequential", [[["lambda", ["x"], ["let*", [["x", ["+", "x", 1]], ["y", "x"]], lst("x", "y")]], 1]]),
+    ("letrec-mutual", [["letrec", [["ev", ["lambda", ["n"], ["if", ["=", "n", 0], True, ["od", ["-", "n", 1]]]]],
+                                   ["od", ["lambda", ["n"], ["if", ["=", "n", 0], False, ["ev", ["-", "n", 1]]]]]], lst(["ev", 4], ["od", 4])]]),
+    ("letrec*-earlier-value", [["letrec*", [["a", 1], ["b", ["+", "a", 1]], ["c", ["lambda", [], lst("a", "b")]]], ["c"]]]),
+    ("internal-define-shadows-param", [[["lambda", ["x"], ["define", "y", ["cons", "x", NIL]], ["define", ["x2"], "y"], ["x2"]], 4]]),
+    ("internal-define-shadows-global", [["define", "y", 1], ["define", ["f"], ["define", "y", 2], ["lambda", [], "y"]], lst([["f"]], "y")]),
+    ("inner-lambda-param-shadows-captured", [[["lambda", ["x"], [["lambda", ["f"], lst(["f", 2], "x")], ["lambda", ["x"], ["set!", "x", ["+", "x", 1]], "x"]]], 10]]),
+    ("counter-pair", [["define", ["mk"], ["define", "n", 0], ["cons", ["lambda", [], ["set!", "n", ["+", "n", 1]], "n"], ["lambda", [], "n"]]],
+                      [["lambda", ["p"], [["car", "p"]], [["car", "p"]], [["cdr", "p"]]], ["mk"]]]),
+    ("when-unless-values", [["define", "x", 0], ["when", True, ["set!", "x", ["+", "x", 1]], ["set!", "x", ["+", "x", 1]]],
+                            ["unless", True, ["set!", "x", 100]], ["unless", False, ["set!", "x", ["+", "x", 10]]], ["when", False, ["set!", "x", 100]], "x"]),
+    ("begin-empty-tail", [[["lambda", ["x"], ["begin", ["set!", "x", 1]], "x"], 0]]),
+]
+
+
 FIXED_CASES = [
     ("rest-assigned-F-C03-1", [["define", ["f", "a", ".", "rest"], ["set!", "rest", 5], "a"], ["cons", ["f", 3], ["cons", 2, ["cons", 1, ["quote", []]]]]]),
     ("rest-assigned-extra", [["define", ["f", "a", ".", "rest"], ["set!", "rest", 5], "a"], ["cons", ["f", 3, 4, 5], ["cons", 2, ["quote", []]]]]),
@@ -809,16 +1193,24 @@ def check_programs(ctx, h, exe, progs, pair_type_hint=None, outer=True, label="C
         a2s = [t for tag, t in ans["lines"] if tag == "A2"]
         bs = [t for tag, t in ans["lines"] if tag == "B"]
         ent["a0"] = a0s
-        for a2, b in zip(a2s, bs):
+        fls = [t for tag, t in ans["lines"] if tag == "F"]
+        for n_, (a2, b) in enumerate(zip(a2s, bs)):
             try:
                 w = wire_ast(sx_parse(a2), names)
-                cw = wire_code(sx_parse(b), names, pair_type)
             except (Unsupported, ValueError, IndexError) as e:
                 ent["inner"].append(dict(unsupported=str(e)))
                 continue
-            ent["inner"].append(dict(a2=w, code=cw, r_annot=len(mreq), r_code=len(mreq) + 1, r_wf=len(mreq) + 2))
+            i_ = dict(a2=w, r_annot=len(mreq), r_wf=len(mreq) + 1, r_flags=len(mreq) + 2,
+                      impl_flags=fls[n_] if n_ < len(fls) else None)
             s = sx_str(w)
-            mreq += ["annot " + s, "code " + s, "wf " + s]
+            mreq += ["annot " + s, "wf " + s, "restflags " + s]
+            try:
+                i_["code"] = wire_code(sx_parse(b), names, pair_type)
+                i_["r_code"] = len(mreq)
+                mreq.append("code " + s)
+            except (Unsupported, ValueError, IndexError) as e:
+                i_["code_unsupported"] = str(e)
+            ent["inner"].append(i_)
     mout = model_requests(ctx, exe, mreq) if mreq else []
     for ent in plan:
         ent["names"] = names
@@ -827,7 +1219,8 @@ def check_programs(ctx, h, exe, progs, pair_type_hint=None, outer=True, label="C
             ent["vm"] = model_value_to_text(mout[ent["vm_req"]], names)
         for i in ent["inner"]:
             if "a2" in i:
-                i["m_annot"], i["m_code"], i["m_wf"] = mout[i["r_annot"]], mout[i["r_code"]], mout[i["r_wf"]]
+                i["m_annot"], i["m_wf"], i["m_flags"] = mout[i["r_annot"]], mout[i["r_wf"]], mout[i["r_flags"]]
+                i["m_code"] = mout[i["r_code"]] if "r_code" in i else None
     return plan
 
 
@@ -843,26 +1236,33 @@ def first_diff(a, b, path=""):
     return None if a == b else "%s: %s vs %s" % (path, sx_str(a)[:80], sx_str(b)[:80])
 
 
-def judge(ctx, plan, d, label="C03"):
-    """compare; violations only when the real outcome contradicts the SPEC"""
-    nviol = 0
+def replay_cmd(text, d):
+    return "echo 'PROG %s' | LD_LIBRARY_PATH=%s %s/embed_c03 | grep '^[VE] '" % (text.replace("'", "'\\''"), d, d)
+
+
+def spec_verdict(spec):
+    return spec is not None and not (spec.startswith("ERR") or spec in ("OUT", "E STUCK"))
+
+
+def judge(ctx, plan, d, viols, label="C03", count=True):
+    """compare; a violation (appended to viols, reported by emit_violations) only when the real outcome
+    contradicts the SPEC; an inner disagreement marks the entry (ent["inner_bad"]) for the targeted search"""
     for ent in plan:
         key, text = ent["key"], ent["text"]
-        nontriv = "lambda" in text or "define" in text
-        ctx.count(1, key=text, nontrivial=nontriv)
-        replay = "echo 'PROG %s' | LD_LIBRARY_PATH=%s %s/embed_c03 | grep '^[VE] '" % (text.replace("'", "'\\''"), d, d)
+        if count:
+            ctx.count(1, key=text, nontrivial="lambda" in text or "define" in text)
         outer_bad = False
         if ent["spec"] is not None:
             spec, impl = ent["spec"], ent["impl"]
-            if spec.startswith("ERR") or spec == "OUT" or spec == "E STUCK":
+            if not spec_verdict(spec):
                 ctx.note("spec gave no verdict for %s (%s): %s" % (key, spec, text[:200]))
             elif spec != impl:
                 outer_bad = True
-                nviol += 1
-                ctx.violation("eval:" + key.split("#")[0].split("/")[0] + ":" + classify(text),
-                              input=text, expected=spec, observed=impl, replay=replay)
-            if ent["vm"] != ent["spec"] and not ent["spec"].startswith("ERR") and ent["spec"] not in ("OUT", "E STUCK"):
+                viols.append(dict(sig="eval:" + key.split("#")[0].split("/")[0] + ":" + classify(text), key=key,
+                                  forms=ent.get("forms"), input=text, expected=spec, observed=impl))
+            if ent["vm"] != ent["spec"] and spec_verdict(spec):
                 ctx.broken("model-compile-correct", "model compiler+VM and SPEC disagree on %s: vm=%s spec=%s" % (text[:300], ent["vm"], ent["spec"]))
+        bad = []
         # analyser output vs this file's own analysis (core-only programs give identical trees)
         if ent.get("own") and len(ent["a0"]) == len(ent["own"]) and ent.get("compare_a0", True):
             for a0, own in zip(ent["a0"], ent["own"]):
@@ -872,37 +1272,53 @@ def judge(ctx, plan, d, label="C03"):
                     continue
                 if ent.get("core_only"):
                     df = first_diff(w, strip_for_a0(own))
-                    if df and not outer_bad:
-                        ctx.broken("correspondence:analyze", "analyser output differs from independent scope resolution on %s at %s" % (text[:300], df))
+                    if df:
+                        bad.append(("correspondence:analyze", "analyser output differs from independent scope resolution on %s at %s" % (text[:300], df), {}))
         for i in ent["inner"]:
             if "a2" not in i:
                 ctx.note("outside the modelled fragment (%s): %s" % (i["unsupported"], text[:120]))
                 continue
             ctx.cov["traces_validated_against_impl"] += 1
+            # the real sexp_rest_unused_p vs the model's rest_unused (the function of theorem rest_unused_sound), per lambda
+            if i.get("impl_flags") is not None:
+                try:
+                    fi = sorted(tuple(x) for x in sx_parse(i["impl_flags"]))
+                    fm = sorted(tuple(x) for x in sx_parse(i["m_flags"]))
+                except (ValueError, IndexError):
+                    fi, fm = None, "unparsable"
+                if fi != fm:
+                    bad.append(("correspondence:rest-unused", "sexp_rest_unused_p and the model's rest_unused differ (id rest? unused?) impl=%s model=%s on %s"
+                                % (i["impl_flags"], i["m_flags"], text[:300]), {}))
             if i["m_wf"] != "1":
-                if not outer_bad:
-                    ctx.broken("correspondence:wf", "analyser output violates wf_program (theorem hypothesis) on %s" % text[:300])
+                bad.append(("correspondence:wf", "analyser output violates wf_program (theorem hypothesis) on %s" % text[:300], {}))
                 continue
             try:
                 ma = sx_parse(i["m_annot"])
-                mc = sx_parse(i["m_code"])
             except (ValueError, IndexError):
-                ctx.broken("correspondence:model-output", "unparsable model output %s / %s" % (i["m_annot"][:100], i["m_code"][:100]))
+                ctx.broken("correspondence:model-output", "unparsable model output %s" % i["m_annot"][:100])
                 continue
             df = first_diff(ma, i["a2"])
-            if df and not outer_bad:
-                ctx.broken("correspondence:free-vars", "sexp_free_vars and the model's annotate differ on %s at %s" % (text[:300], df))
+            if df:
+                bad.append(("correspondence:free-vars", "sexp_free_vars and the model's annotate differ on %s at %s" % (text[:300], df), {}))
+            if i.get("m_code") is None:
+                ctx.note("bytecode outside the modelled fragment (%s): %s" % (i.get("code_unsupported"), text[:120]))
+                continue
+            try:
+                mc = sx_parse(i["m_code"])
+            except (ValueError, IndexError):
+                ctx.broken("correspondence:model-output", "unparsable model output %s" % i["m_code"][:100])
+                continue
             dc = first_diff(mc, i["code"])
-            if dc and not outer_bad:
-                ent["code_diff"] = dc
-                ctx.broken("correspondence:generate", "bytecode differs from the model's generate on %s at %s" % (text[:300], dc),
-                           impl_code=sx_str(i["code"])[:1500], model_code=sx_str(mc)[:1500])
-    return nviol
+            if dc:
+                bad.append(("correspondence:generate", "bytecode differs from the model's generate on %s at %s" % (text[:300], dc),
+                            dict(impl_code=sx_str(i["code"])[:1500], model_code=sx_str(mc)[:1500])))
+        ent["outer_bad"] = outer_bad
+        ent["inner_bad"] = bad
 
 
 def classify(text):
     c = []
-    if ". " in text:
+    if ". " in text or "(lambda o " in text or re.search(r"\(lambda [a-z]", text):
         c.append("rest")
     if "set!" in text:
         c.append("set")
@@ -911,35 +1327,182 @@ def classify(text):
     return "+".join(c) or "plain"
 
 
-def targeted_search(ctx, h, exe, d, plan):
-    """inner disagreement without an outer one: hunt for a program whose value is wrong
-    (variants of the disagreeing programs: more arguments, more nesting, observed twice)"""
-    bad = [e for e in plan if e.get("code_diff")]
-    if not bad:
+# ------------------------------------------------------------------ shrinking a failing program
+
+def shrink_candidates(forms):
+    """one-step simplifications of a surface program: drop a form / a body element, replace a list by one of its
+    elements or by a constant.  Ill-formed results are filtered by running them (both sides must still answer)."""
+    out = []
+
+    def paths(x, p):
+        if isinstance(x, list):
+            yield p
+            for n, y in enumerate(x):
+                yield from paths(y, p + (n,))
+
+    def get(x, p):
+        for n in p:
+            x = x[n]
+        return x
+
+    def put(x, p, v):
+        if not p:
+            return v
+        c = list(x)
+        c[p[0]] = put(x[p[0]], p[1:], v)
+        return c
+
+    for n in range(len(forms) - 1):
+        out.append(forms[:n] + forms[n + 1:])
+    for p in paths(forms, ()):
+        if not p:
+            continue
+        node = get(forms, p)
+        if not node:
+            continue
+        for n, y in enumerate(node):                      # a sub-expression in place of the whole
+            if n > 0 and (isinstance(y, list) and y or isinstance(y, (int, bool))):
+                out.append(put(forms, p, y))
+        if len(node) > 2:                                 # drop one element (body form, argument, clause, binding)
+            for n in range(1, len(node)):
+                out.append(put(forms, p, node[:n] + node[n + 1:]))
+        out.append(put(forms, p, 0))
+    seen, uniq = set(), []
+    for c in out:
+        k = repr(c)
+        if k not in seen and c and isinstance(c, list) and all(isinstance(f, list) and f or isinstance(f, (str, int)) for f in c):
+            seen.add(k)
+            uniq.append(c)
+    return uniq
+
+
+def size_of(x):
+    return 1 + sum(size_of(y) for y in x) if isinstance(x, list) else 1
+
+
+def run_pairs(ctx, h, exe, progs):
+    """(key, forms) -> list of (forms, text, spec, impl) for the programs both sides could run"""
+    ok, texts = [], []
+    for k, f in progs:
+        try:
+            t = " ".join(scm(x) for x in f)
+            program_to_model(f, Names())
+        except Exception:
+            continue
+        ok.append((k, f))
+        texts.append(t)
+    if not ok:
+        return []
+    try:
+        plan = check_programs(ctx, h, exe, ok)
+    except Exception:
+        return []
+    return [(f, e["text"], e["spec"], e["impl"]) for (k, f), e in zip(ok, plan)]
+
+
+def same_failure(v, spec, impl):
+    """a shrunk program must fail in the same way: the SPEC still gives a verdict of the same kind (value /
+    the same error class) without uninitialised values, and the implementation still contradicts it in the same way"""
+    if not spec_verdict(spec) or spec == impl or "#<undef>" in spec:
+        return False
+    if spec.split()[0] != v["expected"].split()[0] or (spec.startswith("E ") and spec != v["expected"]):
+        return False
+    return impl.split()[0] == v["observed"].split()[0]
+
+
+def shrink(ctx, h, exe, v, rounds=14, width=160):
+    forms = v.get("forms")
+    if not forms:
+        return None
+    best, bspec, bimpl = forms, v["expected"], v["observed"]
+    for _ in range(rounds):
+        cands = sorted(shrink_candidates(best), key=size_of)[:width]
+        res = run_pairs(ctx, h, exe, [("shrink", c) for c in cands])
+        good = [(size_of(f), f, sp, im) for f, t, sp, im in res if same_failure(v, sp, im) and size_of(f) < size_of(best)]
+        if not good:
+            break
+        good.sort(key=lambda g: g[0])
+        _, best, bspec, bimpl = good[0]
+    if best is forms:
+        return None
+    return dict(text=" ".join(scm(x) for x in best), expected=bspec, observed=bimpl)
+
+
+def emit_violations(ctx, h, exe, d, viols, max_shrunk_per_sig=1):
+    per = {}
+    for v in viols:
+        n = per.get(v["sig"], 0)
+        per[v["sig"]] = n + 1
+        extra = {}
+        rp = replay_cmd(v["input"], d)
+        if n < max_shrunk_per_sig and len(per) <= 6:
+            try:
+                sh = shrink(ctx, h, exe, v)
+            except Exception as e:                            # shrinking is best effort
+                sh = None
+                ctx.note("shrinking failed: %r" % (e,))
+            if sh:
+                extra = dict(shrunk_input=sh["text"], shrunk_expected=sh["expected"], shrunk_observed=sh["observed"],
+                             shrunk_replay=replay_cmd(sh["text"], d))
+        ctx.violation(v["sig"], input=v["input"], expected=v["expected"], observed=v["observed"], replay=rp, **extra)
+
+
+def report_inner(ctx, plan):
+    """inner disagreements that no outer violation explains become `broken` entries"""
+    seen = {}
+    for e in plan:
+        if e.get("outer_bad"):
+            continue
+        for name, reason, kw in e.get("inner_bad", []):
+            seen[name] = seen.get(name, 0) + 1
+            if seen[name] <= 3:
+                ctx.broken(name, reason, **kw)
+    return seen
+
+
+def feature_families(rng, texts, full):
+    """families exercising the features of the programs on which model and code disagree"""
+    t = " ".join(texts)
+    fams = []
+    if ". " in t or "restpos" in t or re.search(r"\(lambda [a-z]", t):
+        fams.append(("rest parameters in every position class", rest_family()))
+    if re.search(r"\(define \([a-z0-9]+[^)]*\) \(define|lambda \([^)]*\) \(define|letrec", t):
+        fams.append(("internal defines / letrec with forward references", fwd_family()))
+    if re.search(r"^\(define|\) \(define [a-z0-9]+ ", t) or "set!" in t:
+        fams.append(("top-level define / re-define / set! sequences", toplevel_family(rng, 600)))
+    fams.append(("captured variables in every position class", capture_pos_family()))
+    fams.append(("capture patterns", capture_family()))
+    fams.append(("closure chains", chain_family()))
+    fams.append(("derived-form scoping cases", [("misc/" + k, f) for k, f in MISC_CASES]))
+    return fams
+
+
+def targeted_search(ctx, h, exe, d, plan, viols):
+    """inner disagreement without an outer one: hunt for a program whose VALUE is wrong among programs that
+    exercise the disagreeing feature (the families in full, variants of the disagreeing programs)"""
+    bad = [e for e in plan if e.get("inner_bad") and not e.get("outer_bad")]
+    if not bad or viols:
         return
     progs = []
     for e in bad[:40]:
         forms = e["forms"]
         progs.append((e["key"] + "#twice", forms[:-1] + [["cons", forms[-1], ["cons", forms[-1], ["quote", []]]]]))
         progs.append((e["key"] + "#wrapped", forms[:-1] + [[["lambda", ["a", "b", "c"], ["cons", "a", ["cons", forms[-1], ["cons", "c", ["quote", []]]]]], 1, 2, 3]]))
-    plan2 = check_programs(ctx, h, exe, progs)
-    for e, (k, f) in zip(plan2, progs):
-        e["forms"] = f
-    judge_outer_only(ctx, plan2, d)
-
-
-def judge_outer_only(ctx, plan, d):
-    for ent in plan:
-        if ent["spec"] is None:
-            continue
-        spec, impl = ent["spec"], ent["impl"]
-        if spec.startswith("ERR") or spec in ("OUT", "E STUCK"):
-            continue
-        ctx.count(1, key=ent["text"], nontrivial=True)
-        if spec != impl:
-            replay = "echo 'PROG %s' | LD_LIBRARY_PATH=%s %s/embed_c03 | grep '^[VE] '" % (ent["text"].replace("'", "'\\''"), d, d)
-            ctx.violation("eval:" + ent["key"].split("#")[0].split("/")[0] + ":" + classify(ent["text"]),
-                          input=ent["text"], expected=spec, observed=impl, replay=replay)
+    batches = [("variants of the disagreeing programs", progs)] + feature_families(ctx.rng, [e["text"] for e in bad], True)
+    for what, progs in batches:
+        for lo in range(0, len(progs), 1500):
+            part = progs[lo:lo + 1500]
+            plan2 = check_programs(ctx, h, exe, part)
+            for e, (k, f) in zip(plan2, part):
+                e["forms"] = f
+                if spec_verdict(e["spec"]):
+                    ctx.count(1, key=e["text"], nontrivial=True)
+                    if e["spec"] != e["impl"]:
+                        viols.append(dict(sig="eval:" + e["key"].split("#")[0].split("/")[0] + ":" + classify(e["text"]), key=e["key"],
+                                          forms=f, input=e["text"], expected=e["spec"], observed=e["impl"]))
+        ctx.note("targeted search (%s, %d programs): %d failing so far" % (what, len(progs), len(viols)))
+        if viols:
+            return
 
 
 def load_corpus():
